@@ -7,7 +7,8 @@ ID = 'C05'
 TARGETS = ['MindsVerif.Props.C05']
 THEOREMS = ['MindsVerif.Props.C05.C05_sqlite', 'MindsVerif.Props.C05.C05_mysql',
             'MindsVerif.Props.C05.C05_mindsdb', 'MindsVerif.Props.C05.C05_sentence',
-            'MindsVerif.Props.C05.C05_no_accept_after_error', 'MindsVerif.Props.C05.C05_generic']
+            'MindsVerif.Props.C05.C05_no_accept_after_error', 'MindsVerif.Props.C05.C05_generic',
+            'MindsVerif.Props.C05.C05_review_reject_nonsentence']
 ASSUME = [
     'Parser.parse / the two error() callbacks are hand-modelled (MindsVerif.LR.parse); tie = LR correspondence stream',
     'the grammar of the theorem is the production list exported with the tables',
